@@ -211,7 +211,9 @@ SameStruct(s, a, b) == SameG(StructT(s), a, b)
 \* Errors are reported in stream order (the first defect met wins).
 \* ---------------------------------------------------------------------------
 DBad == [st |-> "bad"]
-DOk(v, n, dup, d) == [st |-> "ok", v |-> v, n |-> n, dup |-> dup, d |-> d]
+DOk(v, n, dup, d) == [st |-> "ok", v |-> v, n |-> n, dup |-> dup, d |-> d, q |-> FALSE]
+\* q: the message contains a dubious part (see SkipD): acceptance and rejection are both allowed
+WithQ(r, q) == IF r.st = "ok" THEN [r EXCEPT !.q = @ \/ q] ELSE r
 
 SignExt(w4) == (IF w4[1] >= 128 THEN <<255, 255, 255, 255>> ELSE <<0, 0, 0, 0>>) \o w4
 
@@ -226,32 +228,32 @@ DedupAcc(tk, ents, i, acc) ==
        ELSE DedupAcc(tk, ents, i + 1, Append(acc, ents[i]))
 Dedup(tk, ents) == DedupAcc(tk, ents, 1, <<>>)
 
-RECURSIVE DT(_, _, _, _), DV(_, _, _, _), DItems(_, _, _, _, _, _, _, _), DPairs(_, _, _, _, _, _, _, _, _),
-          DFields(_, _, _, _, _, _, _, _, _)
+RECURSIVE DT(_, _, _, _), DV(_, _, _, _), DItems(_, _, _, _, _, _, _, _, _), DPairs(_, _, _, _, _, _, _, _, _, _),
+          DFields(_, _, _, _, _, _, _, _, _, _)
 
-DItems(te, b, i, n, acc, used, dup, md) ==
-  IF n = 0 THEN DOk(acc, used, dup, md)
+DItems(te, b, i, n, acc, used, dup, md, q) ==
+  IF n = 0 THEN WithQ(DOk(acc, used, dup, md), q)
   ELSE LET r == DT(te, b, i, ZeroOf(te)) IN
        IF r.st # "ok" THEN r
-       ELSE DItems(te, b, i + r.n, n - 1, Append(acc, r.v), used + r.n, dup \/ r.dup, MaxI(md, r.d))
+       ELSE DItems(te, b, i + r.n, n - 1, Append(acc, r.v), used + r.n, dup \/ r.dup, MaxI(md, r.d), q \/ r.q)
 
-DPairs(tk, tv, b, i, n, acc, used, dup, md) ==
-  IF n = 0 THEN DOk(acc, used, dup, md)
+DPairs(tk, tv, b, i, n, acc, used, dup, md, q) ==
+  IF n = 0 THEN WithQ(DOk(acc, used, dup, md), q)
   ELSE LET rk == DT(tk, b, i, ZeroOf(tk)) IN
        IF rk.st # "ok" THEN rk
        ELSE LET rv == DT(tv, b, i + rk.n, ZeroOf(tv)) IN
             IF rv.st # "ok" THEN rv
             ELSE DPairs(tk, tv, b, i + rk.n + rv.n, n - 1, Append(acc, <<rk.v, rv.v>>),
-                        used + rk.n + rv.n, dup \/ rk.dup \/ rv.dup, MaxI(md, MaxI(rk.d, rv.d)))
+                        used + rk.n + rv.n, dup \/ rk.dup \/ rv.dup, MaxI(md, MaxI(rk.d, rv.d)), q \/ rk.q \/ rv.q)
 
 \* cur: the struct value being filled, seen: keys with a well-typed occurrence so far
-DFields(s, b, i, cur, seen, unk, used, dup, md) ==
+DFields(s, b, i, cur, seen, unk, used, dup, md, q) ==
   IF Remain(b, i) < 1 THEN DBad
   ELSE IF b[i] = TSTOP THEN
        LET ff == FieldsOf(s)
            miss == {j \in RequiredOf(s) : ff[j].key \notin seen} IN
        IF miss # {} THEN [st |-> "missing", names |-> {ff[j].name : j \in miss}]
-       ELSE DOk(IF HasUnk(s) /\ Len(unk) > 0 THEN [cur EXCEPT !.unk = unk] ELSE cur, used + 1, dup, md + 1)
+       ELSE WithQ(DOk(IF HasUnk(s) /\ Len(unk) > 0 THEN [cur EXCEPT !.unk = unk] ELSE cur, used + 1, dup, md + 1), q)
   ELSE IF Remain(b, i) < 3 THEN DBad
   ELSE LET j == FieldIdx(s, U16(b, i + 1)) IN
        IF j # 0 /\ WT(FieldsOf(s)[j].t) = b[i] THEN
@@ -259,11 +261,11 @@ DFields(s, b, i, cur, seen, unk, used, dup, md) ==
                 r == DT(f.t, b, i + 3, cur.f[f.key]) IN
             IF r.st # "ok" THEN r
             ELSE DFields(s, b, i + 3 + r.n, [cur EXCEPT !.f[f.key] = r.v], seen \cup {f.key}, unk,
-                         used + 3 + r.n, dup \/ r.dup \/ f.key \in seen, MaxI(md, r.d))
+                         used + 3 + r.n, dup \/ r.dup \/ f.key \in seen, MaxI(md, r.d), q \/ r.q)
        ELSE LET r == SkipD(b[i], b, i + 3, 100000) IN
             IF r[1] < 0 THEN DBad
             ELSE DFields(s, b, i + 3 + r[1], cur, seen, unk \o Sub(b, i, 3 + r[1]), used + 3 + r[1], dup,
-                         MaxI(md, r[2]))
+                         MaxI(md, r[2]), q \/ r[3])
 
 \* non-pointer value of type t at b[i]; prior = what the destination held
 DV(t, b, i, prior) ==
@@ -287,18 +289,18 @@ DV(t, b, i, prior) ==
                       items |-> Mat([j \in 1..n |-> IF t.e.k = "enum" THEN SignExt(Sub(b, i + 5 + (j - 1) * 4, 4))
                                                      ELSE Sub(b, i + 5 + (j - 1) * w, w)])],
                      5 + n * w, FALSE, 1)
-            ELSE LET r == DItems(t.e, b, i + 5, n, <<>>, 5, FALSE, 0) IN
+            ELSE LET r == DItems(t.e, b, i + 5, n, <<>>, 5, FALSE, 0, FALSE) IN
                  IF r.st # "ok" THEN r ELSE [r EXCEPT !.v = [nil |-> FALSE, items |-> r.v], !.d = r.d + 1]
   ELSE IF k = "map" THEN
        IF Remain(b, i) < 6 THEN DBad
        ELSE LET n == S32(b, i + 2) IN
             IF n < 0 \/ b[i] # WT(t.kt) \/ b[i + 1] # WT(t.vt) THEN DBad
             ELSE IF n > (Remain(b, i) - 6) \div (MinWire(WT(t.kt)) + MinWire(WT(t.vt))) THEN DBad
-            ELSE LET r == DPairs(t.kt, t.vt, b, i + 6, n, <<>>, 6, FALSE, 0) IN
+            ELSE LET r == DPairs(t.kt, t.vt, b, i + 6, n, <<>>, 6, FALSE, 0, FALSE) IN
                  IF r.st # "ok" THEN r
                  ELSE [r EXCEPT !.v = [nil |-> FALSE, ents |-> Dedup(t.kt, r.v)], !.d = r.d + 1]
   ELSE \* nested struct: declared defaults first, then the fields of the message
-       DFields(t.s, b, i, IF HasInit(t.s) THEN DefaultStruct(t.s) ELSE prior, {}, <<>>, 0, FALSE, 0)
+       DFields(t.s, b, i, IF HasInit(t.s) THEN DefaultStruct(t.s) ELSE prior, {}, <<>>, 0, FALSE, 0, FALSE)
 
 DT(t, b, i, prior) ==
   IF t.ptr THEN
@@ -308,7 +310,7 @@ DT(t, b, i, prior) ==
 
 \* top level: the destination is never re-initialised
 \* the result's d is the nesting depth of the message (the top-level struct counts 1)
-Dec(s, b, dest) == DFields(s, b, 1, dest, {}, <<>>, 0, FALSE, 0)
+Dec(s, b, dest) == DFields(s, b, 1, dest, {}, <<>>, 0, FALSE, 0, FALSE)
 
 \* nesting depth of a generically well-formed message
 MsgDepth(b) == SkipD(TSTRUCT, b, 1, 100000)[2]
